@@ -175,3 +175,100 @@ Proof.
         destruct (skipn k r) as [|s0 sr] eqn:Es; [congruence|].
         destruct (dec_norm _ _) as [m1 e1] in H. exists (JvNum neg0 m1 e1). rewrite <- H. f_equal; cbn [app]; rewrite <- ?app_assoc; reflexivity.
 Qed.
+
+(* ------------------------------------------------------------------ *)
+(* the digit string of [shortest_decimal] is that of a positive integer: no sign, no leading zero -- so the text of
+   EVERY float is read back as one number *)
+
+Lemma pow10_pos k : (0 <= k)%Z -> (0 < pow10 k)%Z.
+Proof. intros H. unfold pow10. apply Z.pow_pos_nonneg; lia. Qed.
+
+Lemma in_interval_pos incl lo hi den c p :
+  (0 < lo)%Z -> (0 < den)%Z -> in_interval incl lo hi den c p = true -> (0 < c)%Z.
+Proof.
+  intros Hlo Hden H. unfold in_interval in H. apply andb_prop in H as [H _]. unfold scaled_cmp in H.
+  destruct (Z.leb_spec 0 p) as [Hp|Hp].
+  - pose proof (pow10_pos p Hp) as H10.
+    destruct (Z.compare_spec (c * den) (lo * pow10 p)) as [E|E|E]; try discriminate; nia.
+  - pose proof (pow10_pos (- p) ltac:(lia)) as H10.
+    destruct (Z.compare_spec (c * pow10 (- p) * den) lo) as [E|E|E]; try discriminate; nia.
+Qed.
+
+Lemma shortest_from_pos : forall fuel n k incl x lo hi den c p,
+  (0 < x)%Z -> (0 < lo)%Z -> (0 < den)%Z ->
+  shortest_from fuel n k incl x lo hi den = Some (c, p) -> (0 < c)%Z.
+Proof.
+  induction fuel as [|f IH]; intros n k incl x lo hi den c p Hx Hlo Hden H; cbn [shortest_from] in H; [discriminate|].
+  cbv zeta in H.
+  set (pp := (n - k)%Z) in *.
+  set (tn := if (0 <=? pp)%Z then (x * pow10 pp)%Z else x) in *.
+  set (td := if (0 <=? pp)%Z then den else (den * pow10 (- pp))%Z) in *.
+  assert (Htn : (0 < tn)%Z).
+  { subst tn. destruct (Z.leb_spec 0 pp); [pose proof (pow10_pos pp); nia | exact Hx]. }
+  assert (Htd : (0 < td)%Z).
+  { subst td. destruct (Z.leb_spec 0 pp); [exact Hden | pose proof (pow10_pos (- pp)); nia]. }
+  assert (Hcd : (0 <= tn / td)%Z) by (apply Z.div_pos; lia).
+  destruct (Z.eqb_spec (tn mod td) 0) as [Er|Er].
+  - injection H as <- <-. pose proof (Z.div_mod tn td ltac:(lia)) as Hdm. rewrite Er in Hdm. nia.
+  - destruct (in_interval incl lo hi den (tn / td) pp) eqn:Hd;
+      destruct (in_interval incl lo hi den (tn / td + 1) pp) eqn:Hu; cbn [andb] in H.
+    + pose proof (in_interval_pos _ _ _ _ _ _ Hlo Hden Hd) as Hpos. injection H as <- <-.
+      match goal with |- (0 < match ?cmp with _ => _ end)%Z => destruct cmp end; try lia. destruct (Z.even (tn / td)); lia.
+    + injection H as <- <-. exact (in_interval_pos _ _ _ _ _ _ Hlo Hden Hd).
+    + injection H as <- <-. lia.
+    + exact (IH _ _ _ _ _ _ _ _ _ Hx Hlo Hden H).
+Qed.
+
+Lemma strip10_pos : forall fuel c p c' p', (0 < c)%Z -> strip10 fuel c p = (c', p') -> (0 < c')%Z.
+Proof.
+  induction fuel as [|f IH]; intros c p c' p' Hc H; cbn [strip10] in H; [injection H as <- _; exact Hc|].
+  destruct ((c mod 10 =? 0)%Z && negb (c =? 0)%Z) eqn:E; [|injection H as <- _; exact Hc].
+  apply andb_prop in E as [E _]. apply Z.eqb_eq in E.
+  apply (IH _ _ _ _) in H; [exact H|]. pose proof (Z.div_mod c 10 ltac:(lia)). lia.
+Qed.
+
+Lemma shortest_decimal_head a e ds dp : (0 < a < two53)%Z -> shortest_decimal a e = Some (ds, dp) ->
+  exists d r, ds = d :: r /\ d <> 48 /\ Forall is_digit_byte ds.
+Proof.
+  intros Ha. unfold shortest_decimal. cbv zeta.
+  set (shift := (53 - (Z.log2 a + 1))%Z).
+  set (s := (e - shift - 2)%Z).
+  set (sc := if (0 <=? s)%Z then (2 ^ s)%Z else 1%Z).
+  set (den := if (0 <=? s)%Z then 1%Z else (2 ^ (- s))%Z).
+  set (X := (4 * a * 2 ^ shift)%Z).
+  destruct (dec_exponent (X * sc) den) as [k|]; [|discriminate].
+  destruct (shortest_from 17 1 k (1 <=? shift)%Z (X * sc) ((if (a =? 1)%Z then X - 1 else X - 2) * sc)%Z ((X + 2) * sc)%Z den)
+    as [[c p]|] eqn:Es; [|discriminate].
+  destruct (strip10 20 c p) as [c' p'] eqn:E10. intros H. injection H as <- _.
+  assert (Hsc : (0 < sc)%Z) by (subst sc; destruct (Z.leb_spec 0 s); [apply Z.pow_pos_nonneg; lia | lia]).
+  assert (Hden : (0 < den)%Z) by (subst den; destruct (Z.leb_spec 0 s); [lia | apply Z.pow_pos_nonneg; lia]).
+  assert (Hshift : (0 <= shift)%Z).
+  { assert (Z.log2 a < 53)%Z by (apply Z.log2_lt_pow2; [lia | exact (proj2 Ha)]). subst shift. lia. }
+  assert (HX : (4 <= X)%Z).
+  { subst X. pose proof (Z.pow_pos_nonneg 2 shift ltac:(lia) Hshift). nia. }
+  assert (Hc : (0 < c)%Z).
+  { eapply shortest_from_pos; [| |exact Hden|exact Es]; [nia|]. destruct (a =? 1)%Z; nia. }
+  pose proof (strip10_pos _ _ _ _ _ Hc E10) as Hc'.
+  destruct c' as [|q|q]; try lia. cbn [dec_of_Z].
+  destruct (dec_of_N_pos_head q) as (d & r & E & Hdig & Hd0). exists d, r. rewrite E. auto.
+Qed.
+
+(* json.Marshal's text for a float -- ANY float it has a text for -- is one RFC 8259 number *)
+Theorem fl_to_json_reads x s rest : fl_to_json x = Some s -> stop_num rest ->
+  exists v, json_number (s ++ rest) = Some (v, rest).
+Proof.
+  intros Hs Hrest. destruct x as [|n|n|m e]; cbn [fl_to_json] in Hs; try discriminate.
+  - pose proof (json_number_unsigned [48] [] rest n (or_introl eq_refl)
+                  ltac:(repeat constructor; unfold is_digit_byte; lia) (Forall_nil _) Hrest (if n then [45] else [])
+                  ltac:(destruct n; tauto)) as H.
+    destruct (dec_norm _ _) as [m1 e1] in H. exists (JvNum n m1 e1). rewrite <- H.
+    destruct n; injection Hs as <-; reflexivity.
+  - cbv zeta in Hs. destruct (Z.abs m) as [|q|q]; try discriminate.
+    destruct (strip2 q e) as [q' e'].
+    destruct (Z.ltb_spec (Z.pos q') two53) as [Hlt|]; [|discriminate]. cbn [andb] in Hs.
+    destruct (_ && _); [|discriminate].
+    destruct (shortest_decimal (Z.pos q') e') as [[ds dp]|] eqn:E; [|discriminate].
+    injection Hs as <-.
+    destruct (shortest_decimal_head (Z.pos q') e' ds dp ltac:(lia) E) as (d & r & Eds & Hd0 & Hdig).
+    apply fmt_json_reads; [destruct (m <? 0)%Z; tauto | exists d, r; tauto | exact Hdig | exact Hrest].
+Qed.
